@@ -11,7 +11,7 @@ root = sys.argv[1]
 props = {json.loads(l)['id']: json.loads(l) for l in open(V + '/properties.jsonl') if l.strip()}
 known = {}
 for l in open(V + '/known_findings.jsonl'):
-    if l.strip():
+    if l.strip() and not l.startswith('#'):
         d = json.loads(l)
         known.setdefault(d['property'], []).append(d['line'])
 os.makedirs(root + '/prompts', exist_ok=True)
